@@ -267,7 +267,43 @@ class CallListerVisitor(ast.NodeVisitor):
             if not isinstance(name, Unknown) and not (ro and isinstance(name, ast.Name)):
                 self.visit(name)
 
+    def rebind(self, name, node):
+        """``name`` is bound by a statement that has no `ast.Name` node for it."""
+        if name is not None:
+            self.namespace[name] = Unknown(node)
+
+    def visit_Import(self, node):
+        for alias in node.names:
+            self.rebind((alias.asname or alias.name).partition('.')[0], node)
+
+    visit_ImportFrom = visit_Import
+
+    def visit_ExceptHandler(self, node):
+        self.rebind(node.name, node)
+        self.generic_visit(node)
+
+    def visit_ClassDef(self, node):
+        self.rebind(node.name, node)
+        self.generic_visit(node)
+
+    def visit_MatchAs(self, node):
+        self.rebind(node.name, node)
+        self.generic_visit(node)
+
+    def visit_MatchStar(self, node):
+        self.rebind(node.name, node)
+
+    def visit_MatchMapping(self, node):
+        self.rebind(node.rest, node)
+        self.generic_visit(node)
+
     def visit_FunctionDef(self, node):
+        # the name is bound, and the default values are evaluated, in the
+        # enclosing scope
+        self.rebind(getattr(node, 'name', None), node)
+        for default in node.args.defaults + node.args.kw_defaults:
+            if default is not None:
+                self.visit(default)
         self.namespace = Namespace(self.namespace)
         self.process_parameters(node.args)
         body = node.body
